@@ -147,6 +147,21 @@ for val, sel in (("example.com/qzt/p", {"QzProdFuncKx", "qzInternalHelperKx", "q
     o = exec_bin(d + "/test.bin", ["-test.v"], cwd=d)
     if b"PASS" not in o.stdout or o.returncode != 0:
         R.violation("test-variant-behaviour", "GOGARBLE=%s: the garbled test binary fails: %s" % (val, short(o.stdout + o.stderr, 500)))
+# reflection across the boundary: an unselected package wraps a type of a selected one and only the wrapper is reflected
+RMOD = {"go.mod": "module example.com/qzr\n\ngo 1.26\n",
+        "cmd/app/main.go": "package main\n\nimport (\n\t\"encoding/json\"\n\t\"fmt\"\n\n\t\"example.com/qzr/model\"\n\t\"example.com/qzr/wire\"\n)\n\nfunc main() {\n\te := wire.Envelope{Seq: 7, Body: model.Reading{Sensor: \"probe-a\", Value: 3, Unit: model.Unit{Symbol: \"C\"}}}\n\tb, _ := json.Marshal(e)\n\tfmt.Println(string(b))\n\tvar back wire.Envelope\n\terr := json.Unmarshal(b, &back)\n\tfmt.Println(err, back.Seq, back.Body.Sensor, back.Body.Value, back.Body.Unit.Symbol)\n}\n",
+        "wire/wire.go": "package wire\n\nimport \"example.com/qzr/model\"\n\ntype Envelope struct {\n\tSeq  int\n\tBody model.Reading\n}\n",
+        "model/model.go": "package model\n\ntype Reading struct {\n\tSensor string\n\tValue  int\n\tUnit   Unit\n}\n\ntype Unit struct{ Symbol string }\n"}
+for val, sig in (("example.com/qzr/model,example.com/qzr/cmd", "reflect-across-boundary"), ("example.com/qzr/model", "reflect-names-lost-when-main-unselected"), ("example.com/qzr/wire,example.com/qzr/cmd", "reflect-across-boundary")):
+    d = g.newdir("rb"); write_module(d, RMOD)
+    p0 = g.go(["build", "-o", "plain", "./cmd/app"], d)
+    p = g.garble([], "build", ["-o", "out", "./cmd/app"], d, extra_env={"GOGARBLE": val})
+    done += 1
+    if p0.returncode != 0: log("generator bug", p0.stderr.decode()); sys.exit(2)
+    if p.returncode != 0:
+        R.violation(sig + ":build-fails", "GOGARBLE=%s: %s" % (val, short(p.stderr, 500)), {"module/" + k: c for k, c in RMOD.items()})
+    elif exec_bin(d + "/out").stdout != exec_bin(d + "/plain").stdout:
+        R.violation(sig, "GOGARBLE=%s: reflection output differs: %r vs plain %r" % (val, exec_bin(d + "/out").stdout[:300], exec_bin(d + "/plain").stdout[:300]), {"module/" + k: c for k, c in RMOD.items()})
 # boundary: identical structs converted between a selected and an unselected package
 BMOD = {"go.mod": "module example.com/qzb\n\ngo 1.26\n",
         "main.go": "package main\n\nimport (\n\t\"fmt\"\n\n\t\"example.com/qzb/lib\"\n\t\"example.com/qzb/other\"\n)\n\nfunc main() { fmt.Println(other.Show(other.Same(lib.Same{A: 1, B: \"x\"})), lib.Get(other.Make()).A) }\n",
